@@ -175,6 +175,27 @@ def scripts(rep, base):
         if got != api:
             rep.violation('script:pybind-differs-from-api', 'scripts/pybind_wrap.py output differs from the API for top=%r ignore=%r boost=%r' % (top, ignore, boost),
                           dict(kind='c16-script', top=top, ignore=ignore, boost=boost))
+    # a part of a multi-file module: --is_submodule writes the file that --out names (run from another directory)
+    other = os.path.join(base, 'elsewhere')
+    os.makedirs(other, exist_ok=True)
+    part_out = os.path.join(base, 'parts', 'cli_part.cpp')
+    os.makedirs(os.path.dirname(part_out), exist_ok=True)
+    cmd = [sys.executable, os.path.join(repo, 'scripts', 'pybind_wrap.py'), '--src', src, '--module_name', 'mod', '--out', part_out,
+           '--template', tpl, '--top_module_namespaces', 'ns1', '--ignore', '', '--is_submodule']
+    p = subprocess.run(cmd, capture_output=True, text=True, env=env, cwd=other)
+    rep.bounded['evaluations'] += 1
+    rep.bounded['distinct'].add(('script', 'submodule-out'))
+    api = PybindWrapper(module_name='mod', top_module_namespaces=['', 'ns1'], ignore_classes=[''], use_boost_serialization=False,
+                        module_template=TPL).wrap_file(text, module_name='cli')
+    if p.returncode != 0:
+        rep.violation('script:pybind-submodule-fails', 'scripts/pybind_wrap.py --is_submodule fails: %s' % p.stderr[-200:],
+                      dict(kind='c16-script', mode='submodule'))
+    elif not os.path.exists(part_out):
+        rep.violation('script:pybind-submodule-out-ignored', 'scripts/pybind_wrap.py --is_submodule does not write the file named by --out (found %s in the working directory)'
+                      % sorted(os.listdir(other)), dict(kind='c16-script', mode='submodule'))
+    elif open(part_out).read() != api:
+        rep.violation('script:pybind-submodule-differs-from-api', 'scripts/pybind_wrap.py --is_submodule output differs from wrap_file of the same text',
+                      dict(kind='c16-script', mode='submodule'))
     # MATLAB script
     from props.matlab_e2e import make_wrapper
     tplf = os.path.join(repo, 'gtwrap', 'matlab_wrapper', 'matlab_wrapper.tpl')
